@@ -5,105 +5,11 @@ use super::*;
 use std::collections::BTreeSet;
 use std::sync::Arc;
 
-pub(crate) fn nil_handle() -> OpHandle {
-    OpHandle(uuid::Uuid::nil())
-}
+include!("support_basic.rs");
 
-/// ParsedParameters with every map empty (what ParsedParameters::new starts from)
-pub(crate) fn bare_params(name: &str) -> ParsedParameters {
-    ParsedParameters {
-        name: name.to_string(),
-        boolean: BTreeSet::new(),
-        natural: BTreeMap::new(),
-        integer: BTreeMap::new(),
-        real: BTreeMap::new(),
-        series: BTreeMap::new(),
-        text: BTreeMap::new(),
-        texts: BTreeMap::new(),
-        uuid: BTreeMap::new(),
-        fourier_coefficients: BTreeMap::new(),
-        ignored: Vec::new(),
-        given: BTreeMap::new(),
-        grids: Vec::new(),
-    }
-}
-
-/// An Op literal, as a constructor builds it, without running the (string-parsing) constructor
-pub(crate) fn bare_op(params: ParsedParameters, fwd: InnerOp, inv: Option<InnerOp>, inverted: bool) -> Op {
-    let invertible = inv.is_some();
-    Op {
-        descriptor: OpDescriptor {
-            invocation: String::new(),
-            definition: String::new(),
-            steps: Vec::new(),
-            invertible,
-            inverted,
-            fwd,
-            inv: inv.unwrap_or_default(),
-            id: nil_handle(),
-        },
-        params,
-        steps: Vec::new(),
-        id: nil_handle(),
-    }
-}
-
-/// A context every method of which fails: operators under test must not consult the context at apply time
-pub(crate) struct NoCtx;
-impl Context for NoCtx {
-    fn new() -> Self {
-        NoCtx
-    }
-    fn op(&mut self, _definition: &str) -> Result<OpHandle, Error> {
-        Err(Error::General("NoCtx"))
-    }
-    fn apply(&self, _op: OpHandle, _direction: Direction, _operands: &mut dyn CoordinateSet) -> Result<usize, Error> {
-        Err(Error::General("NoCtx"))
-    }
-    fn globals(&self) -> BTreeMap<String, String> {
-        BTreeMap::new()
-    }
-    fn steps(&self, _op: OpHandle) -> Result<&Vec<String>, Error> {
-        Err(Error::General("NoCtx"))
-    }
-    fn params(&self, _op: OpHandle, _index: usize) -> Result<ParsedParameters, Error> {
-        Err(Error::General("NoCtx"))
-    }
-    fn register_op(&mut self, _name: &str, _constructor: OpConstructor) {}
-    fn register_resource(&mut self, _name: &str, _definition: &str) {}
-    fn get_op(&self, _name: &str) -> Result<OpConstructor, Error> {
-        Err(Error::General("NoCtx"))
-    }
-    fn get_resource(&self, _name: &str) -> Result<String, Error> {
-        Err(Error::General("NoCtx"))
-    }
-    fn get_blob(&self, _name: &str) -> Result<Vec<u8>, Error> {
-        Err(Error::General("NoCtx"))
-    }
-    fn get_grid(&self, _name: &str) -> Result<Arc<dyn Grid>, Error> {
-        Err(Error::General("NoCtx"))
-    }
-}
-
-pub(crate) fn beq(a: f64, b: f64) -> bool {
-    a.to_bits() == b.to_bits()
-}
-pub(crate) fn same(a: f64, b: f64) -> bool {
-    a.to_bits() == b.to_bits() || (a.is_nan() && b.is_nan())
-}
-pub(crate) fn same4(a: &Coor4D, b: &Coor4D) -> bool {
-    same(a[0], b[0]) && same(a[1], b[1]) && same(a[2], b[2]) && same(a[3], b[3])
-}
 pub(crate) fn any4() -> Coor4D {
     Coor4D(kani::any())
 }
-pub(crate) fn any_nan(c: &Coor4D) -> bool {
-    c[0].is_nan() || c[1].is_nan() || c[2].is_nan() || c[3].is_nan()
-}
-pub(crate) fn all_nan(c: &Coor4D) -> bool {
-    c[0].is_nan() && c[1].is_nan() && c[2].is_nan() && c[3].is_nan()
-}
-
 // ---------------------------------------------------------------------------------------------
 // Parameter side tables: contracts of the ParsedParameters accessors.
 // One BTreeMap<&str,_> insert+lookup costs CBMC 20-60 s and several of them per harness do not finish;
